@@ -10,15 +10,20 @@
 package main
 
 import (
+	"bytes"
 	"encoding/json"
+	"flag"
 	"fmt"
+	"io"
 	"os"
+	"os/exec"
 	"reflect"
 	"runtime"
 	"sort"
 	"strings"
 	"sync"
 	"sync/atomic"
+	"time"
 
 	"github.com/aptpod/iscp-go/encoding"
 	"github.com/aptpod/iscp-go/internal/vh/c11/gen"
@@ -44,12 +49,53 @@ type replayCase struct {
 	Problem string   `json:"problem,omitempty"`
 }
 
+// sigParts is a structured signature: clause[:where][=label]. The driver folds records before it
+// reports them (see fold): a field that fails whatever the varied value drops the label, a constant
+// that fails in every field of its enumeration type names the type instead of the field, a clause
+// violated for every message type drops the type.
+type sigParts struct {
+	clause  string
+	where   string
+	label   string
+	msgFold bool   // where is a message type
+	enum    string // the varied field is of this enumeration type and label is one of its constants
+}
+
+func (p sigParts) sig() string {
+	s := p.clause
+	if p.where != "" {
+		s += ":" + p.where
+	}
+	if p.label != "" {
+		s += "=" + p.label
+	}
+	return s
+}
+
 type viol struct {
-	sig, detail string
+	parts  sigParts
+	detail string
 }
 
 // worker state: one encoding.Transport per codec with the expected counters.
+// inFlight is the case a worker is evaluating (hang watchdog).
+type inFlight struct {
+	msg   string
+	label string
+	rc    replayCase
+	since time.Time
+}
+
+var (
+	workersMu  sync.Mutex
+	allWorkers []*worker
+)
+
+// caseLimit: a single case (a handful of codec calls on one message) that runs longer is a hang.
+const caseLimit = 60 * time.Second
+
 type worker struct {
+	cur    atomic.Pointer[inFlight]
 	g      *gen.Gen
 	schema *gen.Schema
 	codecs []gen.Codec
@@ -65,6 +111,9 @@ type worker struct {
 
 func newWorker(g *gen.Gen, schema *gen.Schema) *worker {
 	w := &worker{g: g, schema: schema, codecs: gen.Codecs()}
+	workersMu.Lock()
+	allWorkers = append(allWorkers, w)
+	workersMu.Unlock()
 	for _, c := range w.codecs {
 		p := &gen.Pipe{}
 		w.pipes = append(w.pipes, p)
@@ -117,26 +166,50 @@ func (w *worker) checkVars(spec *gen.MsgSpec, vars []*gen.Var) (res caseResult, 
 	if !ok {
 		return res, false
 	}
+	w.cur.Store(&inFlight{spec.Name, varsString(vars), replayCase{Family: "vars", Msg: spec.Name, Vars: refs(vars)}, time.Now()})
+	defer w.cur.Store(nil)
 	wantM, _ := g.Build(spec, vars...)
 	want := g.Canon(wantM)
 	typ := reflect.TypeOf(m)
 	curEnc := ""
-	type rawViol struct{ sigT, enc, detail string }
+	type rawViol struct {
+		p      sigParts
+		enc    string
+		detail string
+		done   bool
+	}
 	var raw []rawViol
-	add := func(sig, f string, a ...any) {
-		raw = append(raw, rawViol{sig, curEnc, fmt.Sprintf("%s{%s}: ", spec.Name, varsString(vars)) + fmt.Sprintf(f, a...)})
+	addS := func(p sigParts, f string, a ...any) {
+		raw = append(raw, rawViol{p, curEnc, fmt.Sprintf("%s{%s}: ", spec.Name, varsString(vars)) + fmt.Sprintf(f, a...), false})
+	}
+	add := func(sig, f string, a ...any) { addS(sigParts{clause: sig}, f, a...) }
+	perMsg := func(clause string) sigParts { return sigParts{clause: clause, where: spec.Name, msgFold: true} }
+	varied := func(clause string) sigParts {
+		var fs, ls []string
+		for _, v := range vars {
+			fs = append(fs, v.Field)
+			ls = append(ls, v.Label)
+		}
+		if len(vars) == 0 {
+			return sigParts{clause: clause, where: spec.Name}
+		}
+		p := sigParts{clause: clause, where: strings.Join(fs, "+"), label: strings.Join(ls, "+")}
+		if len(vars) == 1 && strings.HasPrefix(vars[0].Kind, "enum:") {
+			p.enum = strings.TrimPrefix(vars[0].Kind, "enum:")
+		}
+		return p
 	}
 	defer func() {
 		// a clause violated identically under both encodings is one violation
 		for i, r := range raw {
-			if r.sigT == "" {
+			if r.done {
 				continue
 			}
 			encs := r.enc
 			for j := i + 1; j < len(raw); j++ {
-				if raw[j].sigT == r.sigT && raw[j].enc != r.enc {
+				if !raw[j].done && raw[j].p == r.p && raw[j].enc != r.enc {
 					encs += "+" + raw[j].enc
-					raw[j].sigT = ""
+					raw[j].done = true
 				}
 			}
 			d := r.detail
@@ -145,7 +218,9 @@ func (w *worker) checkVars(spec *gen.MsgSpec, vars []*gen.Var) (res caseResult, 
 			} else if r.enc != "" {
 				d = "[" + r.enc + "] " + d
 			}
-			res.viols = append(res.viols, viol{strings.ReplaceAll(r.sigT, "%E%", encs), d})
+			p := r.p
+			p.clause = strings.ReplaceAll(p.clause, "%E%", encs)
+			res.viols = append(res.viols, viol{p, d})
 		}
 	}()
 	rel := relaxed(vars)
@@ -165,13 +240,13 @@ func (w *worker) checkVars(spec *gen.MsgSpec, vars []*gen.Var) (res caseResult, 
 		curEnc = c.Name
 		out, n, err, pan := gen.SafeEncode(c.E, m)
 		if pan != "" {
-			add("C11.panic:EncodeTo:%E%:"+gen.PanicFunc(pan)+":"+spec.Name, "EncodeTo panicked: %s", pan)
+			addS(perMsg("C11.panic:EncodeTo:%E%:"+gen.PanicFunc(pan)), "EncodeTo panicked: %s", pan)
 			continue
 		}
 		// the transport must agree with the codec and account the same bytes
 		terr := w.trs[ci].Write(m)
 		if (terr != nil) != (err != nil) {
-			add("C11.transport:write-disagrees:%E%:"+spec.Name, "EncodeTo error=%v but Transport.Write error=%v", err, terr)
+			addS(perMsg("C11.transport:write-disagrees:%E%"), "EncodeTo error=%v but Transport.Write error=%v", err, terr)
 		}
 		if terr == nil {
 			q := w.pipes[ci].Q
@@ -180,19 +255,19 @@ func (w *worker) checkVars(spec *gen.MsgSpec, vars []*gen.Var) (res caseResult, 
 			w.txN[ci][typ]++
 			w.txTot[ci]++
 			if err == nil && len(sent) != len(out) {
-				add("C11.transport:write-length:%E%:"+spec.Name, "EncodeTo wrote %d bytes, Transport.Write sent %d", len(out), len(sent))
+				addS(perMsg("C11.transport:write-length:%E%"), "EncodeTo wrote %d bytes, Transport.Write sent %d", len(out), len(sent))
 			}
 		}
 		tc := w.trs[ci].TxCount()
 		if tc.ByteCount[typ] != w.txB[ci][typ] || tc.MessageCount[typ] != w.txN[ci][typ] || w.trs[ci].TxMessageCounterValue() != w.txTot[ci] {
-			add("C11.transport:tx-counter:%E%:"+spec.Name, "TxCount bytes=%d msgs=%d total=%d, sums of what was sent: bytes=%d msgs=%d total=%d",
+			addS(perMsg("C11.transport:tx-counter:%E%"), "TxCount bytes=%d msgs=%d total=%d, sums of what was sent: bytes=%d msgs=%d total=%d",
 				tc.ByteCount[typ], tc.MessageCount[typ], w.trs[ci].TxMessageCounterValue(), w.txB[ci][typ], w.txN[ci][typ], w.txTot[ci])
 			w.txB[ci][typ], w.txN[ci][typ], w.txTot[ci] = tc.ByteCount[typ], tc.MessageCount[typ], w.trs[ci].TxMessageCounterValue()
 		}
 		if err != nil {
 			res.encodeErr = true
 			if n != 0 || len(out) != 0 {
-				add("C11.count:encode-error-wrote:%E%:"+spec.Name, "EncodeTo failed (%v) but reported %d bytes and wrote %d", err, n, len(out))
+				addS(perMsg("C11.count:encode-error-wrote:%E%"), "EncodeTo failed (%v) but reported %d bytes and wrote %d", err, n, len(out))
 			}
 			if rel {
 				continue // refusing a nil oneof / a value that is no declared constant is fine
@@ -205,12 +280,12 @@ func (w *worker) checkVars(spec *gen.MsgSpec, vars []*gen.Var) (res caseResult, 
 				}
 			}
 			if !attributed {
-				add("C11.encode-error:%E%:"+spec.Name+":"+varsSig(vars), "EncodeTo failed: %v", err)
+				addS(varied("C11.encode-error:%E%"), "EncodeTo failed: %v", err)
 			}
 			continue
 		}
 		if n != len(out) {
-			add("C11.count:encode:%E%:"+spec.Name, "EncodeTo returned %d but wrote %d bytes", n, len(out))
+			addS(perMsg("C11.count:encode:%E%"), "EncodeTo returned %d but wrote %d bytes", n, len(out))
 		}
 		got, dn, consumed, derr, dpan := gen.SafeDecode(c.E, out)
 		// read the same message back through the transport
@@ -226,62 +301,69 @@ func (w *worker) checkVars(spec *gen.MsgSpec, vars []*gen.Var) (res caseResult, 
 			}
 			rc := w.trs[ci].RxCount()
 			if rc.ByteCount[typ] != w.rxB[ci][typ] || rc.MessageCount[typ] != w.rxN[ci][typ] || w.trs[ci].RxMessageCounterValue() != w.rxTot[ci] {
-				add("C11.transport:rx-counter:%E%:"+spec.Name, "RxCount bytes=%d msgs=%d total=%d, sums of what was received: bytes=%d msgs=%d total=%d",
+				addS(perMsg("C11.transport:rx-counter:%E%"), "RxCount bytes=%d msgs=%d total=%d, sums of what was received: bytes=%d msgs=%d total=%d",
 					rc.ByteCount[typ], rc.MessageCount[typ], w.trs[ci].RxMessageCounterValue(), w.rxB[ci][typ], w.rxN[ci][typ], w.rxTot[ci])
 				w.rxB[ci][typ], w.rxN[ci][typ], w.rxTot[ci] = rc.ByteCount[typ], rc.MessageCount[typ], w.trs[ci].RxMessageCounterValue()
 			}
 		}
 		if dpan != "" {
-			add("C11.panic:DecodeFrom:%E%:"+gen.PanicFunc(dpan)+":"+spec.Name, "DecodeFrom panicked on the library's own encoding: %s", dpan)
+			addS(perMsg("C11.panic:DecodeFrom:%E%:"+gen.PanicFunc(dpan)), "DecodeFrom panicked on the library's own encoding: %s", dpan)
 			continue
 		}
 		if (trerr != nil) != (derr != nil) {
-			add("C11.transport:read-disagrees:%E%:"+spec.Name, "DecodeFrom error=%v but Transport.Read error=%v", derr, trerr)
+			addS(perMsg("C11.transport:read-disagrees:%E%"), "DecodeFrom error=%v but Transport.Read error=%v", derr, trerr)
 		}
 		if derr != nil {
 			switch {
 			case rel:
 				add("C11.encodes-but-undecodable:%E%:"+relKind, "EncodeTo accepted the message (%d bytes) but DecodeFrom rejects that encoding: %v", len(out), derr)
 			default:
-				add("C11.decode-error:%E%:"+spec.Name+":"+varsSig(vars), "DecodeFrom rejects the library's own encoding (%d bytes): %v", len(out), derr)
+				p := varied("C11.decode-error:%E%")
+				if p.enum != "" {
+					p.clause = "C11.enum-total:own-encoding-rejected:%E%"
+				}
+				addS(p, "DecodeFrom rejects the library's own encoding (%d bytes): %v", len(out), derr)
 			}
 			continue
 		}
 		if dn != len(out) || consumed != len(out) {
-			add("C11.count:decode:%E%:"+spec.Name, "encoding has %d bytes, DecodeFrom returned %d and consumed %d", len(out), dn, consumed)
+			addS(perMsg("C11.count:decode:%E%"), "encoding has %d bytes, DecodeFrom returned %d and consumed %d", len(out), dn, consumed)
 		}
 		if reflect.TypeOf(got) != typ {
-			add("C11.roundtrip:%E%:"+spec.Name+":type", "decoded %T", got)
+			addS(sigParts{clause: "C11.roundtrip:%E%", where: spec.Name + ":type"}, "decoded %T", got)
 			continue
 		}
 		if d := gen.Equal(want, got); d != nil {
-			sig := "C11.roundtrip:%E%:" + d.Field
+			p := sigParts{clause: "C11.roundtrip:%E%", where: d.Field}
 			if rel {
-				sig = "C11.roundtrip:%E%:" + relKind
+				p.where = relKind
 			} else {
 				for _, v := range vars {
-					if v.Path == d.Path || strings.HasPrefix(d.Path, v.Path+"<") {
-						sig += "=" + v.Label
+					if vp := strings.ReplaceAll(v.Path, "[0]", "[i]"); vp == d.Path || strings.HasPrefix(d.Path, vp+"<") {
+						p.label = v.Label
+						if strings.HasPrefix(v.Kind, "enum:") {
+							p.enum = strings.TrimPrefix(v.Kind, "enum:")
+						}
 					}
 				}
 			}
-			add(sig, "decode(encode(m)) != canon(m) at %s: %s", d.Path, d.Detail)
+			addS(p, "decode(encode(m)) != canon(m) at %s: %s", d.Path, d.Detail)
 		}
 		if trerr == nil && tgot != nil {
 			if d := gen.Equal(got, tgot); d != nil {
-				add("C11.transport:read-differs:%E%:"+spec.Name, "Transport.Read and DecodeFrom disagree at %s: %s", d.Path, d.Detail)
+				addS(perMsg("C11.transport:read-differs:%E%"), "Transport.Read and DecodeFrom disagree at %s: %s", d.Path, d.Detail)
 			}
 		}
 		decoded[ci] = got
 		// wire number of library constants (by name), protobuf only
 		if c.Name == "protobuf" && len(vars) == 1 && strings.HasPrefix(vars[0].Kind, "enum:") {
-			w.checkWireNumbers(spec, m, out, strings.TrimPrefix(vars[0].Kind, "enum:"), add)
+			w.checkWireNumbers(spec, m, out, strings.TrimPrefix(vars[0].Kind, "enum:"), vars[0].Label, add)
 		}
 	}
 	curEnc = ""
 	if decoded[0] != nil && decoded[1] != nil {
 		if d := gen.Equal(decoded[0], decoded[1]); d != nil {
-			add("C11.cross:"+d.Field, "protobuf and JSON decodings differ at %s: %s", d.Path, d.Detail)
+			addS(sigParts{clause: "C11.cross", where: d.Field}, "protobuf and JSON decodings differ at %s: %s", d.Path, d.Detail)
 		}
 	}
 	return res, true
@@ -296,7 +378,7 @@ func (w *worker) enumInfo(enum string) *gen.EnumInfo {
 
 // checkWireNumbers compares the enum numbers found in the protobuf encoding with the numbers the
 // enumerator NAMES demand (zero values are not on the wire in proto3).
-func (w *worker) checkWireNumbers(spec *gen.MsgSpec, m message.Message, enc []byte, enum string, add func(sig, f string, a ...any)) {
+func (w *worker) checkWireNumbers(spec *gen.MsgSpec, m message.Message, enc []byte, enum, constLabel string, add func(sig, f string, a ...any)) {
 	ei := w.enumInfo(enum)
 	var want []uint64
 	for _, leaf := range gen.EnumLeaves(m, enum) {
@@ -327,7 +409,7 @@ func (w *worker) checkWireNumbers(spec *gen.MsgSpec, m message.Message, enc []by
 		}
 	})
 	if fmt.Sprint(want) != fmt.Sprint(got) {
-		add("C11.enum-total:lib->wire-number:"+enum, "enum numbers on the wire %v, the enumerator names demand %v", got, want)
+		add("C11.enum-total:lib->wire-number:"+constLabel, "enum numbers on the wire %v, the enumerator names demand %v", got, want)
 	}
 }
 
@@ -364,6 +446,8 @@ func (w *worker) checkWire(c wireCase) (fail string, exists bool) {
 	if !ok {
 		return "", false
 	}
+	w.cur.Store(&inFlight{c.spec.Name, fmt.Sprintf("%s wire %d %s", c.enum, c.wire, c.form), c.replay(), time.Now()})
+	defer w.cur.Store(nil)
 	wantM, _ := g.Build(c.spec, c.shape...)
 	leaves := gen.EnumLeaves(wantM, c.enum)
 	if c.leaf >= len(leaves) {
@@ -443,8 +527,26 @@ func (w *worker) checkWire(c wireCase) (fail string, exists bool) {
 	if derr != nil {
 		return fmt.Sprintf("DecodeFrom rejects wire number %d (%s): %v", c.wire, ei.WireName[c.wire], derr), true
 	}
-	if d := gen.Equal(want, got); d != nil {
-		return fmt.Sprintf("wire number %d (%s) should decode to %s; difference at %s: %s", c.wire, ei.WireName[c.wire], lib.Name, d.Path, d.Detail), true
+	// only the enumeration fields are judged here (the rest of the message is the business of the
+	// round trip families)
+	_ = want
+	if reflect.TypeOf(got) != reflect.TypeOf(wantM) {
+		return fmt.Sprintf("wire number %d (%s): decoded a %T", c.wire, ei.WireName[c.wire], got), true
+	}
+	gl := gen.EnumLeaves(got, c.enum)
+	if len(gl) != len(leaves) {
+		return fmt.Sprintf("wire number %d (%s): the decoded message has %d %s fields, expected %d", c.wire, ei.WireName[c.wire], len(gl), c.enum, len(leaves)), true
+	}
+	num := func(v reflect.Value) int64 {
+		if v.CanInt() {
+			return v.Int()
+		}
+		return int64(v.Uint())
+	}
+	for i := range gl {
+		if num(gl[i]) != num(leaves[i]) {
+			return fmt.Sprintf("wire number %d (%s) should decode to %s (%d); %s field #%d of the decoded message is %d (%s), expected %d", c.wire, ei.WireName[c.wire], lib.Name, lib.Value, c.enum, i, num(gl[i]), ei.ConstName(num(gl[i])), num(leaves[i])), true
+		}
 	}
 	return "", true
 }
@@ -463,8 +565,62 @@ func findVars(spec *gen.MsgSpec, rs []varRef) ([]*gen.Var, error) {
 	return out, nil
 }
 
-func main() {
+var flagInner = flag.Bool("c11inner", false, "internal: do the work (the outer process supervises)")
+
+// supervise runs the check in a child process, so that a death of the process inside library code
+// (fatal runtime error, stack exhaustion, out of memory) is reported as a violation with evidence
+// instead of a crash of the harness.
+func supervise() int {
+	cmd := exec.Command(os.Args[0], append([]string{"-c11inner"}, os.Args[1:]...)...)
+	cmd.Stdout = os.Stdout
+	var tail bytes.Buffer
+	cmd.Stderr = io.MultiWriter(os.Stderr, &tail)
+	err := cmd.Run()
+	code := 0
+	if err != nil {
+		code = -1
+		if ee, ok := err.(*exec.ExitError); ok {
+			code = ee.ExitCode()
+		}
+	}
+	if code == 0 || code == 1 || (code == 2 && bytes.Contains(tail.Bytes(), []byte("ENGINE-ERROR"))) {
+		return code
+	}
 	e := vlib.StartExplore("C11")
+	if e.Replay != nil {
+		e.FinishReplay(true, fmt.Sprintf("the process died (exit code %d) while replaying", code))
+	}
+	t := tail.Bytes()
+	if len(t) > 6000 {
+		t = t[len(t)-6000:]
+	}
+	e.Case("supervisor", "child-process")
+	e.Violation("C11.process-death", fmt.Sprintf("the process running the codecs on valid messages died (exit code %d); last output:\n%s", code, t), replayCase{Family: "process-death"})
+	e.Finish("aborted: the checking process died", false, nil, nil)
+	return 1
+}
+
+func main() {
+	flag.Parse()
+	if !*flagInner {
+		os.Exit(supervise())
+	}
+	e := vlib.StartExplore("C11")
+	// hang watchdog: a case that does not finish within caseLimit ends the run with a violation
+	go func() {
+		for {
+			time.Sleep(time.Second)
+			workersMu.Lock()
+			ws := append([]*worker(nil), allWorkers...)
+			workersMu.Unlock()
+			for _, w := range ws {
+				if c := w.cur.Load(); c != nil && time.Since(c.since) > caseLimit {
+					e.Violation("C11.hang:"+c.msg, fmt.Sprintf("%s{%s}: the codecs did not finish the case within %v", c.msg, c.label, caseLimit), c.rc)
+					e.Finish("aborted: a case hung", false, nil, nil)
+				}
+			}
+		}
+	}()
 	g, err := gen.New()
 	if err != nil {
 		fmt.Fprintln(os.Stderr, "ENGINE-ERROR: cannot discover the message grammar:", err)
@@ -516,7 +672,7 @@ func main() {
 			res, _ := w.checkVars(spec, vars)
 			var lines []string
 			for _, v := range res.viols {
-				lines = append(lines, v.sig+": "+v.detail)
+				lines = append(lines, v.parts.sig()+": "+v.detail)
 			}
 			for _, v := range res.enumFailed {
 				lines = append(lines, "library constant "+v.Label+" does not encode")
@@ -545,24 +701,25 @@ func main() {
 		pair bool
 	}
 	var mu sync.Mutex
-	failed := map[*gen.Var]bool{}    // variations whose single case is violated (excluded from pairs)
+	failed := map[*gen.Var]bool{} // variations whose single case is violated (excluded from pairs)
 	type enumFail struct {
 		fields map[string]bool
 		first  replayCase
 		detail string
 	}
-	enumFails := map[string]*enumFail{}    // library constant -> fields where it does not encode
+	enumFails := map[string]*enumFail{}       // library constant -> fields where it does not encode
 	enumTries := map[string]map[string]bool{} // library constant -> fields tried
 	var incompatible, excluded int64
+	var records []record
 	sampleN := int64(0)
 
 	report := func(spec *gen.MsgSpec, vars []*gen.Var, res caseResult) {
 		rc := replayCase{Family: "vars", Msg: spec.Name, Vars: refs(vars)}
-		for _, v := range res.viols {
-			e.Violation(v.sig, v.detail, rc)
-		}
 		if len(res.viols) > 0 || len(res.enumFailed) > 0 {
 			mu.Lock()
+			for _, v := range res.viols {
+				records = append(records, record{v.parts, v.detail, rc, len(vars)})
+			}
 			for _, v := range vars {
 				if len(vars) == 1 {
 					failed[v] = true
@@ -791,6 +948,24 @@ func main() {
 		run(pairs, "pairs")
 	}
 
+	enumFields := map[string]map[string]bool{}
+	for _, sp := range g.Specs {
+		for _, v := range sp.Vars {
+			if strings.HasPrefix(v.Kind, "enum:") {
+				t := strings.TrimPrefix(v.Kind, "enum:")
+				if enumFields[t] == nil {
+					enumFields[t] = map[string]bool{}
+				}
+				enumFields[t][v.Field] = true
+			}
+		}
+	}
+	for _, f := range fold(records, len(g.Specs), enumFields) {
+		for k := 0; k < f.count; k++ {
+			e.Violation(f.parts.sig(), f.detail, f.rc)
+		}
+	}
+
 	var nvars int
 	for _, s := range g.Specs {
 		nvars += len(s.Vars)
@@ -834,4 +1009,126 @@ func sigWord(p string) string {
 		p = p[:90]
 	}
 	return p
+}
+
+type record struct {
+	parts  sigParts
+	detail string
+	rc     replayCase
+	nvars  int
+}
+
+type folded struct {
+	parts  sigParts
+	detail string
+	rc     replayCase
+	count  int
+	nvars  int
+	wheres map[string]bool
+}
+
+// fold merges the violation records of all cases into one record per defect-shaped signature.
+func fold(records []record, nMsgTypes int, enumFields map[string]map[string]bool) []*folded {
+	// deterministic input order: by signature, fewer variations first
+	sort.SliceStable(records, func(i, j int) bool {
+		if records[i].nvars != records[j].nvars {
+			return records[i].nvars < records[j].nvars
+		}
+		return records[i].parts.sig() < records[j].parts.sig()
+	})
+	type key struct{ clause, where, label string }
+	m := map[key]*folded{}
+	var order []key
+	put := func(k key, p sigParts, r record, n int) {
+		f := m[k]
+		if f == nil {
+			f = &folded{parts: p, detail: r.detail, rc: r.rc, nvars: r.nvars, wheres: map[string]bool{}}
+			m[k] = f
+			order = append(order, k)
+		}
+		f.count += n
+		f.wheres[r.parts.where] = true
+	}
+	for _, r := range records {
+		put(key{r.parts.clause, r.parts.where, r.parts.label}, r.parts, r, 1)
+	}
+	rebuild := func(keep func(k key, f *folded) (key, sigParts, bool)) {
+		old, oldOrder := m, order
+		m, order = map[key]*folded{}, nil
+		for _, k := range oldOrder {
+			f := old[k]
+			nk, np, _ := keep(k, f)
+			g := m[nk]
+			if g == nil {
+				c := *f
+				c.parts = np
+				c.wheres = map[string]bool{}
+				for w := range f.wheres {
+					c.wheres[w] = true
+				}
+				m[nk] = &c
+				order = append(order, nk)
+				continue
+			}
+			g.count += f.count
+			for w := range f.wheres {
+				g.wheres[w] = true
+			}
+		}
+	}
+	// 1. a field that fails with the label-less signature too fails whatever the varied value is
+	rebuild(func(k key, f *folded) (key, sigParts, bool) {
+		if k.label != "" {
+			if _, ok := m[key{k.clause, k.where, ""}]; ok {
+				p := f.parts
+				p.label, p.enum = "", ""
+				return key{k.clause, k.where, ""}, p, true
+			}
+		}
+		return k, f.parts, false
+	})
+	// 2. a constant that fails in every field of its enumeration type
+	byConst := map[key]map[string]bool{}
+	for k, f := range m {
+		if f.parts.enum != "" && k.label != "" {
+			kk := key{k.clause, f.parts.enum, k.label}
+			if byConst[kk] == nil {
+				byConst[kk] = map[string]bool{}
+			}
+			byConst[kk][k.where] = true
+		}
+	}
+	rebuild(func(k key, f *folded) (key, sigParts, bool) {
+		if f.parts.enum != "" && k.label != "" {
+			if len(byConst[key{k.clause, f.parts.enum, k.label}]) == len(enumFields[f.parts.enum]) {
+				p := f.parts
+				p.where = "enum:" + f.parts.enum
+				return key{k.clause, p.where, k.label}, p, true
+			}
+		}
+		return k, f.parts, false
+	})
+	// 3. a clause violated for every message type
+	byClause := map[string]map[string]bool{}
+	for k, f := range m {
+		if f.parts.msgFold {
+			if byClause[k.clause] == nil {
+				byClause[k.clause] = map[string]bool{}
+			}
+			byClause[k.clause][k.where] = true
+		}
+	}
+	rebuild(func(k key, f *folded) (key, sigParts, bool) {
+		if f.parts.msgFold && len(byClause[k.clause]) == nMsgTypes {
+			p := f.parts
+			p.where = ""
+			return key{k.clause, "", k.label}, p, true
+		}
+		return k, f.parts, false
+	})
+	var out []*folded
+	for _, k := range order {
+		out = append(out, m[k])
+	}
+	return out
 }
